@@ -90,6 +90,8 @@ func (o c08Op) String() string {
 		return fmt.Sprintf("uploadPartCopy(%s,%d,range=%q)", o.U, o.N, o.Range)
 	case "complete":
 		return fmt.Sprintf("complete(%s,%s)", o.U, o.Spec)
+	case "part-refused":
+		return fmt.Sprintf("uploadPartWithShortBody(%s,%d)", o.U, o.N)
 	}
 	return o.Kind + "(" + o.U + ")"
 }
@@ -120,7 +122,8 @@ func c08Alphabet(thorough bool) []c08Op {
 		ops = append(ops, c08Op{Kind: "complete", U: "u1", Spec: spec})
 	}
 	ops = append(ops, c08Op{Kind: "complete", U: "u2", Spec: "1"}, c08Op{Kind: "complete", U: "u2", Spec: "1,2"}, c08Op{Kind: "complete", U: "u3", Spec: "1"},
-		c08Op{Kind: "abort", U: "u1"}, c08Op{Kind: "abort", U: "u2"})
+		c08Op{Kind: "abort", U: "u1"}, c08Op{Kind: "abort", U: "u2"},
+		c08Op{Kind: "part-refused", U: "u1", N: 1, Data: "B"}, c08Op{Kind: "complete-other-key", U: "u1"}, c08Op{Kind: "abort-other-key", U: "u1"})
 	return ops
 }
 
@@ -288,6 +291,36 @@ func (c *c08Runner) apply(m *c08Model, o c08Op) string {
 		}
 		m.Objects[key] = c08Obj{Data: all, ETag: mpETagOf(datas), Meta: up.Meta}
 		delete(m.Uploads, o.U)
+	case "part-refused":
+		// an UploadPart that must be refused (fewer bytes than declared): whatever was uploaded under that number before stays
+		data := c08Data[o.Data]
+		_, err := p.UploadPart(st.ctx(), &s3.UploadPartInput{Bucket: sp(c08Bucket), Key: &key, UploadId: &id, PartNumber: i32(int32(o.N)), Body: bytes.NewReader(data[:len(data)-1]), ContentLength: i64(int64(len(data)))})
+		if err == nil {
+			return "short-part-upload-accepted"
+		}
+	case "complete-other-key", "abort-other-key":
+		// the upload id together with another key of the bucket names no upload: refused, nothing changes
+		other := map[string]string{"k1": "k2", "k2": "k1"}[key]
+		var err error
+		if o.Kind == "abort-other-key" {
+			err = p.AbortMultipartUpload(st.ctx(), &s3.AbortMultipartUploadInput{Bucket: sp(c08Bucket), Key: &other, UploadId: &id})
+		} else {
+			var cps []types.CompletedPart
+			if exists {
+				if pt, ok := up.Parts[1]; ok {
+					et := pt.ETag
+					cps = append(cps, types.CompletedPart{PartNumber: i32(1), ETag: &et})
+				}
+			}
+			if len(cps) == 0 {
+				et := `"00000000000000000000000000000000"`
+				cps = append(cps, types.CompletedPart{PartNumber: i32(1), ETag: &et})
+			}
+			_, err = p.CompleteMultipartUpload(st.ctx(), &s3.CompleteMultipartUploadInput{Bucket: sp(c08Bucket), Key: &other, UploadId: &id, MultipartUpload: &types.CompletedMultipartUpload{Parts: cps}})
+		}
+		if err == nil {
+			return o.Kind + "-succeeded"
+		}
 	case "abort":
 		err := p.AbortMultipartUpload(st.ctx(), &s3.AbortMultipartUploadInput{Bucket: sp(c08Bucket), Key: &key, UploadId: &id})
 		if !exists {
@@ -406,6 +439,19 @@ func (c *c08Runner) observe(m *c08Model) []string {
 			}
 		}
 	}
+	// an upload id is valid together with its own key only
+	for _, name := range []string{"u1", "u3"} {
+		if _, ok := m.Uploads[name]; !ok {
+			continue
+		}
+		id := c.ids[name]
+		other := map[string]string{"u1": "k2", "u3": "k1"}[name]
+		mm := int32(1000)
+		marker := ""
+		if _, err := p.ListParts(st.ctx(), &s3.ListPartsInput{Bucket: sp(c08Bucket), Key: &other, UploadId: &id, MaxParts: &mm, PartNumberMarker: &marker}); err == nil {
+			an = append(an, "list-parts-with-the-upload-id-of-another-key-succeeded")
+		}
+	}
 	// ListParts per upload (max 1000 and a max-parts=1 walk)
 	for _, name := range []string{"u1", "u2", "u3"} {
 		id := c.ids[name]
@@ -510,7 +556,7 @@ func C08(r *ck.Run) {
 	if r.Thorough() {
 		depth = 4
 	}
-	r.Rule(fmt.Sprintf("breadth-first search over every program of length <= %d of 38 (thorough 40) operations — uploadPart (2 uploads of the same key + 1 of another key, part numbers 1-2 and sparse 5, 9, 10-byte / 12-byte / 3-byte bodies, re-uploads included), uploadPartCopy with 9 source ranges (whole, sub-ranges, last byte, end equal to and beyond the source size, garbage), complete with 11 part specifications (valid, reordered, repeated, missing, wrong ETag, too-small non-last part), abort — on a real posix backend (minimum part size shrunk to 8 bytes by the overlay), states deduplicated on the reference multipart model; after EVERY step a second backend instance checks GET of both keys (bytes, multipart ETag, initiation metadata), ListObjectsV2, ListParts of every upload (max-parts 1000 and 1) and ListMultipartUploads (max-uploads 1000 and 1, markers followed); distinct = distinct state", depth))
+	r.Rule(fmt.Sprintf("breadth-first search over every program of length <= %d of 41 (thorough 43) operations — uploadPart with a short body (refused), completion and abort naming another key (refused), uploadPart (2 uploads of the same key + 1 of another key, part numbers 1-2 and sparse 5, 9, 10-byte / 12-byte / 3-byte bodies, re-uploads included), uploadPartCopy with 9 source ranges (whole, sub-ranges, last byte, end equal to and beyond the source size, garbage), complete with 11 part specifications (valid, reordered, repeated, missing, wrong ETag, too-small non-last part), abort — on a real posix backend (minimum part size shrunk to 8 bytes by the overlay), states deduplicated on the reference multipart model; after EVERY step a second backend instance checks GET of both keys (bytes, multipart ETag, initiation metadata), ListObjectsV2, ListParts of every upload (max-parts 1000 and 1) and ListMultipartUploads (max-uploads 1000 and 1, markers followed); distinct = distinct state", depth))
 	r.Assume("backend.MinPartSize is 8 bytes in this build (overlay constant), everything else is the real code; upload listings are compared as sets plus pagination completeness")
 	cfgs := []pxCfg{{}}
 	if r.Thorough() {
